@@ -75,7 +75,7 @@ def mutator_ops(rnd):
     ops = []
     for _ in range(rnd.randint(1, 3)):
         ops.append(('add', rnd.randint(1, 3)))
-    ops.append(('pack', rnd.choice(['no', 'yes']), rnd.random() < 0.5))
+    ops.append(('pack', rnd.choice(['no', 'yes']), rnd.random() < 0.5, rnd.random() < 0.7))  # (mode, clean_loose_per_pack, do_fsync)
     if rnd.random() < 0.8:
         ops.append(('clean',))
     if rnd.random() < 0.5:
@@ -146,7 +146,7 @@ class Site:
                         d = self.new()
                         self.acked[cont.add_object(d)] = d
                 elif op[0] == 'pack':
-                    cont.pack_all_loose(compress=op[1] == 'yes', clean_loose_per_pack=op[2])
+                    cont.pack_all_loose(compress=op[1] == 'yes', clean_loose_per_pack=op[2], do_fsync=op[3] if len(op) > 3 else True)
                 elif op[0] == 'clean':
                     cont.clean_storage()
                 elif op[0] == 'direct':
